@@ -15,7 +15,7 @@ impl Property for C13 {
         "C13"
     }
     fn rule(&self) -> &'static str {
-        "profile `faults`: total programs with clock rows, both driver types, subset/permuted output layouts, and either a failure plan (call index j counted over all calls the driver sees, constructor = 0, write-only calls included; the error carries a unique id) or a deviation plan (at the output-reading call of a checked row: drop, add, duplicate in place, swap two, substitute another output-capable signal, or a same-named signal of different width). Oracle (metamorphic against the fault-free real run of the same test and script): j = 0 => try_iter returns Err(Driver(e)) with that id; otherwise all items before the failing call are equal and the item whose call failed is Err(Driver(e)) with that id; deviation => that item is an error, earlier items equal, and no later row is produced from the deviating answer; every row statement carries two probe inputs `(P)` reading device outputs, and in the row evaluated right after the deviating call a probe shows what the driver reported for P itself in that call, never another signal's value. Non-trivial: j >= 1, or a deviation on a layout of >= 2 signals; distinct by source + signals + driver + plan."
+        "profile `faults`: total programs with clock rows, both driver types, subset/permuted output layouts (in one case in sixteen a first answer without any entry, to which a later answer adds one), and either a failure plan (call index j counted over all calls the driver sees, constructor = 0, write-only calls included; the error carries a unique id) or a deviation plan (at the output-reading call of a checked row: drop, add, duplicate in place, swap two, substitute another output-capable signal, or a same-named signal of different width). Oracle (metamorphic against the fault-free real run of the same test and script): j = 0 => try_iter returns Err(Driver(e)) with that id; otherwise all items before the failing call are equal and the item whose call failed is Err(Driver(e)) with that id; deviation => that item is an error, earlier items equal, and no later row is produced from the deviating answer; every row statement carries two probe inputs `(P)` reading device outputs, and in the row evaluated right after the deviating call a probe shows what the driver reported for P itself in that call, never another signal's value. Non-trivial: j >= 1, or a deviation on a layout of >= 2 signals; distinct by source + signals + driver + plan."
     }
     fn cases(&self, tier: Tier) -> u64 {
         match tier {
@@ -24,7 +24,7 @@ impl Property for C13 {
         }
     }
     fn required_classes(&self) -> Vec<&'static str> {
-        vec!["fail-at-ctor", "fail-at-checked-row", "fail-at-mid-clock-write", "dev:drop", "dev:add", "dev:duplicate", "dev:swap", "dev:substitute", "dev:rewidth", "overriding-driver", "defaulting-driver", "row-after-deviation-checked", "probe-after-deviation-checked"]
+        vec!["fail-at-ctor", "fail-at-checked-row", "fail-at-mid-clock-write", "dev:drop", "dev:add", "dev:duplicate", "dev:swap", "dev:substitute", "dev:rewidth", "overriding-driver", "defaulting-driver", "row-after-deviation-checked", "probe-after-deviation-checked", "first-answer-without-entries"]
     }
     fn run(&self, s: &Streams) -> CaseOut {
         let mut out = CaseOut::new();
@@ -34,18 +34,29 @@ impl Property for C13 {
         cfg.omit_cols = true;
         cfg.n_out = (1, 4);
         cfg.device_whiles = false;
+        let mut dch = Ch::new(&s[2]);
+        // one case in eight reads nothing from the device; in half of those the driver's first
+        // answer has no entries at all (a later answer that has one is a different number)
+        let reads_nothing = dch.chance(1, 8);
+        if reads_nothing {
+            cfg.reads = false;
+        }
         let mut built = gen_case(&mut Ch::new(&s[0]), &cfg);
         // every row statement carries a tag and two probe inputs `(P)` reading device outputs
         let readable: Vec<String> =
             built.sigs.iter().filter(|s| s.is_output() && is_ident(&s.name)).map(|s| s.name.clone()).collect();
-        let rows = crate::probe::instrument(&mut built, &mut Ch::new(&s[1]), 2, crate::probe::ProbePref::Device, &readable);
+        let rows = crate::probe::instrument(&mut built, &mut Ch::new(&s[1]), if reads_nothing { 0 } else { 2 }, crate::probe::ProbePref::Device, &readable);
         let text = built_text(&built);
-        let mut dch = Ch::new(&s[2]);
-        let spec0 = gen_spec(
+        let mut spec0 = gen_spec(
             &mut dch,
             &built.sigs,
             &SpecCfg { palette: Palette::Small, zx: 0, free_layout: true, must_supply: built.must_supply(), both_driver_types: true },
         );
+        let empty_layout = reads_nothing && built.analysis.reads.is_empty() && dch.chance(1, 2);
+        if empty_layout {
+            spec0.layout.clear();
+            out.class("first-answer-without-entries");
+        }
         out.class(if spec0.override_write { "overriding-driver" } else { "defaulting-driver" });
         let Some(tc) = load_wellformed(&mut out, "c13", &text, &built.sigs) else {
             render_case(&mut out, &text, &built.sigs, Some(&spec0));
@@ -80,7 +91,7 @@ impl Property for C13 {
         }
         let mut spec = spec0.clone();
         let ncalls = base.log.len();
-        let use_deviation = !spec.layout.is_empty() && dch.chance(1, 2);
+        let use_deviation = (!spec.layout.is_empty() || empty_layout) && dch.chance(1, 2);
         // items (index) whose row is checked
         let checked: Vec<usize> = base
             .items
@@ -95,8 +106,8 @@ impl Property for C13 {
             let c = k + 1; // every item makes exactly one call; the constructor made call 0
             let n = spec.layout.len();
             let outs: Vec<usize> = (0..built.sigs.len()).filter(|i| built.sigs[*i].is_output()).collect();
-            let p = dch.upto(n);
-            let dev = match dch.upto(6) {
+            let p = if n == 0 { 0 } else { dch.upto(n) };
+            let dev = match if n == 0 { 1 } else { dch.upto(6) } {
                 0 => Deviation::Drop(p),
                 1 => Deviation::Add(outs[dch.upto(outs.len())]),
                 2 => Deviation::Duplicate(p),
